@@ -149,7 +149,6 @@ func cotCase(o *hxlib.Out, r *hxlib.Rng, idx int, seed uint64, kind string, mal,
 				o.Fail("c06-nonshared-reinit-accepted", map[string]any{"case": idx, "replay": replay, "config": cfg})
 			}
 		}
-		o.Count("cot_buf_" + b.rbuf.class())
 		if anyNonZeroL(res[i].initL) {
 			o.Count("cot_buf_nonzero_before_call")
 		}
@@ -312,6 +311,7 @@ func cotMode(args []string) int {
 		}
 		for _, b := range batches {
 			countSize(o, "cot", len(b.flags))
+			o.Count("cot_buf_" + b.rbuf.class())
 			o.Count("cot_choices_" + b.ckind)
 			if b.reinit {
 				o.Count("cot_reinit")
